@@ -137,6 +137,8 @@ structure SpecWF (spec : Spec) : Prop where
     getBonds so.struct = .ok so.bonds
   structLen : ∀ so ∈ spec.structs, so.len = ((structStrands spec so).map (fun q => q.2.len)).sum
   equal : ∀ its ∈ spec.equals, ∀ i ∈ its, (spec.findSeq i.name).isSome = true
+  supEarlier : ∀ (i : Nat) (o : SeqObj), spec.seqs[i]? = some o → o.isSup = true →
+    ∀ it ∈ o.items, ∃ j o', j < i ∧ spec.seqs[j]? = some o' ∧ spec.findSeq it.name = some o'
 
 theorem find?_mem' {α : Type} {p : α → Bool} {l : List α} {a : α} (h : l.find? p = some a) : a ∈ l ∧ p a = true :=
   ⟨List.mem_of_find?_eq_some h, List.find?_some h⟩
